@@ -45,6 +45,18 @@ def collect(h):
     if rec == clo:
         raise h.Missing(f"{rel}: RecursiveRoleAncestors has a shape the model does not cover")
     items.append(("acl_rra_closure", "bool", "true" if clo else "false", rel + " RecursiveRoleAncestors"))
+    # parser: are the GRANTs of a WORKSPACE / ALTER WORKSPACE block applied before all its REVOKEs, or in textual order?
+    rel = "pkg/parser/impl_build.go"
+    body = h.func_body(rel, r"^func \(c \*buildContext\) grantsAndRevokes\(", "grantsAndRevokes")
+    m = re.search(r"handleWorkspace\s*:=\s*func\(stmts \[\]WorkspaceStatement\)\s*\{(.*?)\n\t\}\n", body, re.S)
+    if not m:
+        raise h.Missing(f"{rel}: cannot locate handleWorkspace in grantsAndRevokes")
+    hw = m.group(1)
+    two_pass = re.search(r"grants\(stmts\)\s*revokes\(stmts\)", hw) is not None
+    one_pass = ("grants(stmts)" not in hw) and re.search(r"case s\.Grant != nil:.*case s\.Revoke != nil:", hw, re.S) is not None
+    if two_pass == one_pass:
+        raise h.Missing(f"{rel}: grantsAndRevokes has a shape the model does not cover")
+    items.append(("parser_acl_grants_first", "bool", "true" if two_pass else "false", rel + " grantsAndRevokes/handleWorkspace"))
     # system fields recognised by IsSysField (the harness numbers them 0..4 in this order)
     rel = "pkg/appdef/utils_field.go"
     fb = h.func_body(rel, r"^func IsSysField\(", "IsSysField")
